@@ -19,6 +19,9 @@ KEY_B = bytes(range(101, 133))
 INITIALS = [  # (file content or None, writable)
     (None, True), (None, False), (KEY_A, True), (b"", True), (b"12345", True), (bytes(40), True),
     (bytes(31), True), (bytes(33), True),
+    # the other AES key sizes, and sizes around them: only 32 bytes is a key file
+    (bytes(range(1, 17)), True), (bytes(range(1, 25)), True), (bytes(range(1, 9)), True), (bytes(range(1, 65)), True), (b"\x07", True),
+    (bytes(range(1, 49)), True),
 ]
 METHODS = ["xor", "aes", "best", "bogus"]
 GM = {"xor": "MXor", "aes": "MAes", "best": "MBest", "bogus": "MBogus"}
@@ -40,7 +43,7 @@ def generate(rng, tier):
                 cases.append({"file": init[0], "writable": init[1], "rng": fixed_draws[:n + 1],
                               "ops": [("new",), ("new",)] + list(seq), "kind": "matrix"})
     # sessions separated by an external change of the file, same and different objects (every initial state)
-    swaps = [KEY_B, KEY_A, b"12345", None]
+    swaps = [KEY_B, KEY_A, b"12345", None, bytes(range(2, 18)), bytes(range(2, 26))]
     for init in INITIALS:
         for swap in swaps:
             for second in (0, 1):
@@ -77,7 +80,7 @@ def generate(rng, tier):
                 data = bytes(rng.getrandbits(8) for _ in range(rng.choice([0, 1, 31, 32, 48])))
                 ops.append(("dec", i, m, data))
             else:
-                c = rng.choice([None, None, KEY_A, KEY_B, b"", b"short", bytes(64)])
+                c = rng.choice([None, None, KEY_A, KEY_B, b"", b"short", bytes(64), bytes(range(16)), bytes(range(24)), bytes(range(48))])
                 w = True if c is not None else rng.random() < 0.7
                 ops.append(("ext", c, w))
         cases.append({"file": init[0], "writable": init[1], "rng": draws(rng, 1 + sum(1 for o in ops if o[0] == "enter")), "ops": ops,
